@@ -12,10 +12,12 @@ from vlib.common import digest, HarnessError
 from vlib import hjmodel
 from vlib.hjmodel import Model, RANK, strip_card
 
-BIBS = ['A', 'B', 'C', 'D', 'E']
+BIBS = ['A', 'B', 'C', 'D', 'E', 'F', 'G']
 LETTER = {'o': 'cleared', 'x': 'failed', '-': 'passed', 'r': 'retired'}
 FIRST_HEIGHT = 2       # leaves room for a jump-off bar below every earlier best
 MIN_HEIGHT = 1
+R2_IN_FRINGE = False    # after a pass in a jump-off the import (which ignores pass marks) legitimately differs in standings: "explicit pass marks aside"
+QUERY_STEPS = 2     # state-changing read-only queries followed along one history
 
 
 class GuardedLog(list):
@@ -80,9 +82,35 @@ def new_comp():
 # ------------------------------------------------------------------------------------------------
 # applying calls
 
+QUERIES = ['to_matrix', 'trials', 'trial_objs', 'remaining', 'eliminated', 'is_finished', 'is_running', 'print_ranking',
+           'jumper.place', 'jumper.ranking_key', 'jumper.has_retired', 'from_actions']
+
+
+def run_query(comp, name):
+    """one read-only query of the public surface (properties are read, methods called without arguments)"""
+    import io, contextlib
+    with contextlib.redirect_stdout(io.StringIO()):
+        if name.startswith('jumper.'):
+            for j in list(comp.jumpers):
+                getattr(j, name[7:])
+            return
+        if name == 'from_actions':
+            comp.from_actions(list(comp.actions.plain()) if isinstance(comp.actions, GuardedLog) else None)
+            return
+        v = getattr(comp, name)
+        if callable(v):
+            v()
+
+
 def apply_call(comp, call):
     """Apply one alphabet call through the public API.  Returns None if accepted, else the exception."""
     kind, arg = call
+    if kind == 'q':
+        try:
+            run_query(comp, arg)
+            return None
+        except Exception as e:     # noqa
+            return e
     GuardedLog.armed = True
     try:
         if kind == 'add':
@@ -326,9 +354,11 @@ def expand(pick, model, bounds, hist_fn=None):
         why = universal_accept_ok(model, call)
         if why:
             viol.append(('U4:forbidden-call-accepted:%s' % why, call, why))
+            continue                           # the rules do not say what follows a forbidden trial: reported, not explored further
         elif core and allowed is False:
             viol.append(('U5:forbidden-call-accepted:%s' % _callclass(call, model), call,
                          'the rules forbid %s here (phase %s) but it was accepted' % (call, model.phase)))
+            continue
         if RANK.get(comp.state, -1) < RANK.get(comp0.state, -1) or \
                 (comp0.state in ('jumpoff', 'won') and comp.state in ('jumpoff', 'won') and comp.state != comp0.state):
             viol.append(('U3:state-went-backwards:%s->%s' % (comp0.state, comp.state), call, 'state %s -> %s' % (comp0.state, comp.state)))
@@ -357,6 +387,24 @@ def expand(pick, model, bounds, hist_fn=None):
             if comp.state == 'jumpoff':
                 m2.jo_alive = tuple(j.bib for j in comp.remaining)
         succ.append((call, pickle.dumps(comp, 4), m2))
+    # read-only queries: where one leaves the object changed, the changed object is a state of its own (explored with all checks,
+    # the rules being unaffected by a query), at most QUERY_STEPS such steps along one history
+    if getattr(model, 'qsteps', 0) < QUERY_STEPS:
+        comp = spare if spare is not None else pickle.loads(pick)
+        for q in QUERIES:
+            apply_call(comp, ('q', q))
+        st['queries'] = st.get('queries', 0) + len(QUERIES)
+        if pickle.dumps(comp, 4) != repick:        # some query changed the object: find out which, one by one
+            for q in QUERIES:
+                comp = pickle.loads(pick)
+                apply_call(comp, ('q', q))
+                d = pickle.dumps(comp, 4)
+                if d == repick:
+                    continue
+                st['impure_queries'] = st.get('impure_queries', 0) + 1
+                m2 = model.clone()
+                m2.step(('q', q))
+                succ.append((('q', q), d, m2))
     if GuardedLog.reads:
         raise HarnessError('a transition read the action log (%d reads): the dedup abstraction is unsound for this tree' % GuardedLog.reads)
     return succ, viol, st, tuple(accepted_mask)
@@ -432,7 +480,7 @@ def monitor_c08(comp, model):
             out.append(('R1:log-replay-differs:%s' % k[0], None, 'replayed log differs in %s: %r vs %r' % (k[0], obs[k[0]], o2[k[0]])))
     except Exception as e:
         out.append(('R1:log-replay-raises:%s' % type(e).__name__, None, 'from_actions raised %r' % e))
-    if model.irregular == 0:
+    if model.irregular == 0 or R2_IN_FRINGE:
         try:
             mx = comp.to_matrix()
             rt = H.from_matrix([list(r) for r in mx])
@@ -545,7 +593,7 @@ class Explorer(object):
                 self.stats['states'] += 1
                 self.states_by_phase[state] = self.states_by_phase.get(state, 0) + 1
                 for k, v in st.items():
-                    self.stats[k] += v
+                    self.stats[k] = self.stats.get(k, 0) + v
                 for sig, call, msg in viol:
                     self.add_viol(sig, idx, call, msg)
                 for sig, call, msg in mon:
@@ -676,6 +724,14 @@ class Deep(object):
     def node(self, comp, model, hist):
         self.stats['nodes'] += 1
         self.check(comp, model, hist)
+        if getattr(self, 'probe', False):
+            last = model.heights[-1]
+            new = [b for b in BIBS if b not in model.order][0]
+            A = [('add', new), ('add', model.order[0]), ('bar', last + 1), ('bar', last), ('bar', last - 1)]
+            A += [(k, b) for b in model.order for k in 'ox-r']
+            for k in ('probes', 'refused', 'accepted', 'lockstep'):
+                self.stats.setdefault(k, 0)
+            probe_all(comp, model, hist, A, self.viol, self.stats, apply_call, monitors=False, cap=5)
         st = comp.state
         if st in ('finished', 'drawn'):
             self.stats['leaves'] += 1
@@ -851,6 +907,51 @@ def _apply_long(comp, call, order):
         GuardedLog.armed = False
 
 
+def probe_all(comp, model, hist, A, viol, st, apply, monitors=True, cap=None):
+    """every call of A applied once to a clone of comp: universal checks U1-U5, lock-step phase, optionally the C03 monitor"""
+    RuleViolation = RV()
+    pick = pickle.dumps(comp, 4)
+    repick = pickle.dumps(pickle.loads(pick), 4)
+    core = model.irregular == 0
+
+    def bad(sig, where, msg):
+        if cap is None or sum(1 for v in viol if v[0] == sig) < cap:
+            viol.append((sig, where, msg))
+    for call in A:
+        st['probes'] += 1
+        c2 = pickle.loads(pick)
+        err = apply(c2, call)
+        allowed = model.allowed(call)
+        where = hist + [call]
+        if err is not None:
+            st['refused'] += 1
+            if not isinstance(err, RuleViolation):
+                bad('U1:refusal-is-%s' % type(err).__name__, where, 'raised %r' % (err,))
+            if pickle.dumps(c2, 4) != repick:
+                d = _first_diff(internal(pickle.loads(pick), with_log=True), internal(c2, with_log=True))
+                bad('U2:refused-call-changed-state:%s' % d[0], where, 'refused call (%s) changed %s: %r -> %r' % (err, d[0], d[1], d[2]))
+            if core and allowed is True:
+                bad('U5:allowed-call-refused:%s' % _callclass(call, model), where, 'refused: %s' % err)
+        else:
+            st['accepted'] += 1
+            why = universal_accept_ok(model, call)
+            if why:
+                bad('U4:forbidden-call-accepted:%s' % why, where, why)
+            elif core and allowed is False:
+                bad('U5:forbidden-call-accepted:%s' % _callclass(call, model), where, 'accepted in phase %s' % model.phase)
+            if RANK.get(c2.state, -1) < RANK.get(comp.state, -1):
+                bad('U3:state-went-backwards:%s->%s' % (comp.state, c2.state), where, '')
+            m2 = model.clone()
+            m2.step(call, c2.state)
+            if m2.irregular == 0:
+                st['lockstep'] += 1
+                if c2.state != m2.phase:
+                    bad('U5:phase-differs:%s-vs-model-%s' % (c2.state, m2.phase), where, 'implementation %s, rules %s' % (c2.state, m2.phase))
+                if monitors:
+                    for sig, _, msg in monitor_c03(c2, m2):
+                        bad(sig, where, msg)
+
+
 def probe_long(name, card):
     """returns (stats, violations): at every prefix of the legal history every alphabet call is tried once on a clone"""
     from decimal import Decimal as D
@@ -863,47 +964,13 @@ def probe_long(name, card):
     hist = []
     for step in range(len(calls) + 1):
         st['prefixes'] += 1
-        pick = pickle.dumps(comp, 4)
-        repick = pickle.dumps(pickle.loads(pick), 4)
         last = model.heights[-1] if model.heights else D(0)
         A = [('add', 'ZZ')] + ([('add', model.order[0])] if model.order else [])
         A += [('bar', last + D('0.01')), ('bar', last), ('bar', last - D('0.01'))]
         for b in model.order:
             for k in 'ox-r':
                 A.append((k, b))
-        core = model.irregular == 0
-        for call in A:
-            st['probes'] += 1
-            c2 = pickle.loads(pick)
-            err = _apply_long(c2, call, order)
-            allowed = model.allowed(call)
-            where = hist + [call]
-            if err is not None:
-                st['refused'] += 1
-                if not isinstance(err, RuleViolation):
-                    viol.append(('U1:refusal-is-%s' % type(err).__name__, where, 'raised %r' % (err,)))
-                if pickle.dumps(c2, 4) != repick:
-                    d = _first_diff(internal(pickle.loads(pick), with_log=True), internal(c2, with_log=True))
-                    viol.append(('U2:refused-call-changed-state:%s' % d[0], where, 'refused call (%s) changed %s: %r -> %r' % (err, d[0], d[1], d[2])))
-                if core and allowed is True:
-                    viol.append(('U5:allowed-call-refused:%s' % _callclass(call, model), where, 'refused: %s' % err))
-            else:
-                st['accepted'] += 1
-                why = universal_accept_ok(model, call)
-                if why:
-                    viol.append(('U4:forbidden-call-accepted:%s' % why, where, why))
-                elif core and allowed is False:
-                    viol.append(('U5:forbidden-call-accepted:%s' % _callclass(call, model), where, 'accepted in phase %s' % model.phase))
-                if RANK.get(c2.state, -1) < RANK.get(comp.state, -1):
-                    viol.append(('U3:state-went-backwards:%s->%s' % (comp.state, c2.state), where, ''))
-                m2 = model.clone()
-                m2.step(call, c2.state)
-                if m2.irregular == 0:
-                    st['lockstep'] += 1
-                    if c2.state != m2.phase:
-                        viol.append(('U5:phase-differs:%s-vs-model-%s' % (c2.state, m2.phase), where, 'implementation %s, rules %s' % (c2.state, m2.phase)))
-                    for sig, _, msg in monitor_c03(c2, m2):
-                        viol.append((sig, where, msg))
+        probe_all(comp, model, hist, A, viol, st, lambda c, call: _apply_long(c, call, order))
         if step == len(calls):
             break
         call = calls[step]
@@ -928,9 +995,10 @@ def probe_long(name, card):
 # long jump-offs: from canonical tie starts, every rule-conforming continuation of up to J rounds with a restricted bar menu
 
 def _jolong_work(chunk):
-    n, J, deltas, first_plan = chunk
+    n, J, deltas, first_plan, probe = chunk
     d = Deep(n, 2, J)
     d.jo_deltas = deltas
+    d.probe = probe
     comp, model, hist = d.start()
     for r, plan_str in enumerate(('o', 'xxx')):
         call = ('bar', FIRST_HEIGHT + r)
@@ -947,7 +1015,7 @@ def _jolong_work(chunk):
     return dict(stats=d.stats, viol=d.viol[:20], outcomes=d.outcomes)
 
 
-def jo_long(n, J, deltas=(0, -1, 1)):
+def jo_long(n, J, deltas=(0, -1, 1), probe=False):
     """all n athletes clear height 2 and fail height 3 (tie at best 2, no failures), then every jump-off of up to J rounds"""
     import itertools
     items = []
@@ -955,9 +1023,11 @@ def jo_long(n, J, deltas=(0, -1, 1)):
         if h < MIN_HEIGHT:
             continue
         for outcome in itertools.product('oxr', repeat=n):
-            items.append((n, J, tuple(deltas), (h, outcome)))
+            items.append((n, J, tuple(deltas), (h, outcome), probe))
     res = common.pmap(_jolong_work, items)
     tot = dict(nodes=0, leaves=0, terminal_checked=0, jumpoffs=0)
+    if probe:
+        tot.update(probes=0, refused=0, accepted=0, lockstep=0)
     viol, outcomes = [], set()
     for r in res:
         for k in tot:
